@@ -1,63 +1,102 @@
-(* C13 over a LARGER alphabet of directory trees than the property quantifies over.
+(* C13 over a LARGER alphabet of directory trees than the property's quantifier lists.
    Statements only; every proof is [exact <lemma of C13_Special>].
-   The property's quantifier assembles directory contents from regular files,
-   sub-directories and symbolic links. A directory can also hold FIFOs, sockets
-   and device nodes. [xnode] adds them ([XOther c], c = what ReadCertificateFile
-   answers when it opens and reads the entry); [xget_certificates] is
-   GetCertificates over such trees: the only test on the kind of an entry is
-       file.IsDir() || file.Type()&fs.ModeSymlink != 0     (truststore.go:98).
-   What is shown: (1) the code cannot tell such an entry from a regular file;
-   (2) the exact condition of success over the larger alphabet; (3) within the
-   property's alphabet the wording "every entry is a regular file" holds;
-   (4) outside it that wording is FALSE of the code (a FIFO into which a
-   certificate is written is loaded - replayed on the real code by the harness
-   family special-entry). (4) is not a violation of the property as quantified
-   (its alphabet has no such files); it is recorded because the statement read
-   alone says "regular file".                                                *)
+   The quantifier assembles directory contents from regular files, sub-directories
+   and symbolic links. A directory can also hold FIFOs, sockets and device nodes:
+   [xnode] adds them ([XOther c], c = what ReadCertificateFile would answer if it
+   opened and read the entry). Two variants of GetCertificates over such trees:
+     [xget_certificates]     the code now (after fix 351e8a6): an entry is refused
+                             unless file.Type().IsRegular()
+     [xget_certificates_v0]  the code before: refused only if
+                             file.IsDir() || file.Type()&fs.ModeSymlink != 0.
+   Part A states the property for the present code over the larger alphabet at
+   full strength: in particular clause "every entry is a regular file" with no
+   restriction on what else a directory may hold. Part B keeps what the audit
+   found about the old code ([_v0]): it read other files like regular ones, the
+   clause was false of it (witness kept, replayed on the real code at the time:
+   a FIFO into which a certificate is written was loaded), and shows the present
+   code refuses the witness.                                                  *)
 From NV Require Import Base Regex Generated C13_Model C13_Proofs C13_Special.
 Open Scope string_scope.
 Open Scope list_scope.
 
-(* (1) GetCertificates on a tree with other files = GetCertificates on the tree in
-   which each of them is replaced by a regular file with the content a read
-   delivers; hence every theorem of C13_Property transfers through [erase] *)
-Theorem C13_special_read_as_regular : forall root ty name,
-  xget_certificates root ty name = get_certificates is_valid_file_name (erase root) ty name.
-Proof. exact xget_erase. Qed.
-Print Assumptions C13_special_read_as_regular.
+(* ================= Part A: the code as it is now ================= *)
 
-(* (2) success iff known type, plain name, the store path a real directory, every
-   entry a regular OR other file delivering >= 1 acceptable certificates; the
-   result is exactly what these entries deliver, in entry order, not empty *)
-Theorem C13_special_iff : forall root ty name l,
-  xget_certificates root ty name = Loaded l <->
-  known_type ty /\ plain_name name /\
-  exists es, xlstat root (store_path ty name) = XLNode (XDir es) /\
-             Forall (xentry_read_good (is_tsa ty)) es /\
-             l = flat_map xcerts_of_entry es /\ l <> [].
+(* [xloadable root ty name l]: known type /\ plain name /\ the store path is a real
+   directory /\ every entry is a REGULAR file ([XFile]) holding >= 1 acceptable
+   certificates /\ l = their concatenation in entry order /\ l <> [].
+   Success with l iff loadable - for every tree of the larger alphabet *)
+Theorem C13_x_iff : forall root ty name l,
+  xget_certificates root ty name = Loaded l <-> xloadable root ty name l.
 Proof. exact xget_iff. Qed.
-Print Assumptions C13_special_iff.
+Print Assumptions C13_x_iff.
 
-(* (3) when no entry of the named store is an other file (the property's
-   alphabet), success implies that every entry is a REGULAR file holding >= 1
-   acceptable certificates - whatever the rest of the tree holds *)
-Theorem C13_regular_within_alphabet : forall root ty name l es,
+(* clause "whose every entry is a regular file", directly: on success no entry of
+   the store directory is a directory, a link, a FIFO, a socket or a device *)
+Theorem C13_x_every_entry_regular : forall root ty name l es,
   xget_certificates root ty name = Loaded l ->
   xlstat root (store_path ty name) = XLNode (XDir es) ->
-  (forall e, In e es -> ~ is_other (snd e)) ->
-  Forall (xentry_good (is_tsa ty)) es.
-Proof. exact xget_regular. Qed.
-Print Assumptions C13_regular_within_alphabet.
+  forall nm n, In (nm, n) es -> exists cs, n = XFile (CCerts cs) /\ cs <> [].
+Proof. exact xevery_entry_regular. Qed.
+Print Assumptions C13_x_every_entry_regular.
 
-(* (4) without that hypothesis the clause is refuted: a store loads although an
-   entry of it is not a regular file *)
-Theorem C13_regular_only_refuted_outside_alphabet :
-  exists root ty name l es,
-    xget_certificates root ty name = Loaded l /\ l <> [] /\
-    xlstat root (store_path ty name) = XLNode (XDir es) /\
-    ~ Forall (fun e => exists c, snd e = XFile c) es.
-Proof. exact regular_only_refuted. Qed.
-Print Assumptions C13_regular_only_refuted_outside_alphabet.
+(* all or nothing over the larger alphabet *)
+Theorem C13_x_all_or_nothing : forall root ty name,
+  (exists l, xget_certificates root ty name = Loaded l /\ xloadable root ty name l) \/
+  (exists c k e, xget_certificates root ty name = Failed c k e /\ forall l, ~ xloadable root ty name l).
+Proof. exact xall_or_nothing. Qed.
+Print Assumptions C13_x_all_or_nothing.
+
+(* one offending entry of ANY kind anywhere among good ones fails the store with a
+   CertificateError naming the first offender; an other file is refused for its
+   kind ([xentry_fault] = KEntryKind) like a sub-directory or a link *)
+Theorem C13_x_first_offender : forall root ty name good nm n rest,
+  known_type ty -> plain_name name ->
+  xlstat root (store_path ty name) = XLNode (XDir (good ++ (nm, n) :: rest)) ->
+  Forall (xentry_good (is_tsa ty)) good -> ~ xentry_good (is_tsa ty) (nm, n) ->
+  xget_certificates root ty name = Failed ECertificate (xentry_fault (is_tsa ty) n) nm.
+Proof. exact xfirst_offender. Qed.
+Print Assumptions C13_x_first_offender.
+
+(* a store holding an other file never loads, whatever a read of that file would
+   deliver and wherever it stands among the entries *)
+Theorem C13_x_other_entry_fails : forall root ty name,
+  store_has_other root ty name = true -> forall l, xget_certificates root ty name <> Loaded l.
+Proof. exact xother_fails. Qed.
+Print Assumptions C13_x_other_entry_fails.
+
+(* an other file is never opened: two stores that differ only in what their other
+   files would deliver (and in what is below sub-directories / behind links of
+   sub-entries) give the same result. [strict_entries] keeps of an other file
+   only that it is not regular *)
+Theorem C13_x_other_content_irrelevant : forall r1 r2 ty name es1 es2,
+  xlstat r1 (store_path ty name) = XLNode (XDir es1) ->
+  xlstat r2 (store_path ty name) = XLNode (XDir es2) ->
+  strict_entries es1 = strict_entries es2 ->
+  xget_certificates r1 ty name = xget_certificates r2 ty name.
+Proof. exact xframe_entries. Qed.
+Print Assumptions C13_x_other_content_irrelevant.
+
+(* conservativity: where the named store holds no other file - in particular on
+   every tree of the property's alphabet - the present code is the base model
+   of C13_Property (on the erased tree) and coincides with the old code; every
+   theorem of C13_Property transfers *)
+Theorem C13_x_conservative : forall root ty name,
+  store_has_other root ty name = false ->
+  xget_certificates root ty name = get_certificates is_valid_file_name (erase root) ty name /\
+  xget_certificates root ty name = xget_certificates_v0 root ty name.
+Proof. exact xget_conservative. Qed.
+Print Assumptions C13_x_conservative.
+
+(* the harness's oracle for cases over the larger alphabet is the declarative
+   predicate, and the model meets it *)
+Theorem C13_x_oracle_is_spec : forall i l,
+  xexpected i = Some l <-> xloadable (xi_root i) (xi_ty i) (xi_name i) l.
+Proof. exact xexpected_spec. Qed.
+Print Assumptions C13_x_oracle_is_spec.
+
+Theorem C13_x_model_meets_oracle : forall i, xspec_ok i (xmodel i) = true.
+Proof. exact xmodel_xspec_ok. Qed.
+Print Assumptions C13_x_model_meets_oracle.
 
 (* the harness evaluates base cases and cases over the larger alphabet in one
    list with [grun]; on base cases it is [run] of C13_Model *)
@@ -65,29 +104,82 @@ Theorem C13_grun_is_run_on_base_cases : forall cs, grun (map GB cs) = run cs.
 Proof. exact grun_base. Qed.
 Print Assumptions C13_grun_is_run_on_base_cases.
 
-(* the oracle applied to a case over the larger alphabet ([xspec_ok]: returned
-   certificates must be exactly the store's, read with "regular file" widened to
-   "neither directory nor link"; an error is accepted whenever the store is not
-   loadable in the literal reading) is met by the model *)
-Theorem C13_special_model_meets_oracle : forall i,
-  spec_ok (erase_input i) (xmodel i) = true /\ xspec_ok i (xmodel i) = true.
-Proof. exact xmodel_meets_oracles. Qed.
-Print Assumptions C13_special_model_meets_oracle.
+(* ================= Part B: the code before fix 351e8a6 ================= *)
+
+(* the old code on a tree with other files = the base model on the tree in which
+   each of them is replaced by a regular file with the content a read delivers *)
+Theorem C13_special_read_as_regular_v0 : forall root ty name,
+  xget_certificates_v0 root ty name = get_certificates is_valid_file_name (erase root) ty name.
+Proof. exact xget_erase_v0. Qed.
+Print Assumptions C13_special_read_as_regular_v0.
+
+(* its exact condition of success: every entry a regular OR other file delivering
+   >= 1 acceptable certificates *)
+Theorem C13_special_iff_v0 : forall root ty name l,
+  xget_certificates_v0 root ty name = Loaded l <->
+  known_type ty /\ plain_name name /\
+  exists es, xlstat root (store_path ty name) = XLNode (XDir es) /\
+             Forall (xentry_read_good (is_tsa ty)) es /\
+             l = flat_map xcerts_read_of_entry es /\ l <> [].
+Proof. exact xget_iff_v0. Qed.
+Print Assumptions C13_special_iff_v0.
+
+(* it met the wording only under the hypothesis that the store held no other file *)
+Theorem C13_regular_within_alphabet_v0 : forall root ty name l es,
+  xget_certificates_v0 root ty name = Loaded l ->
+  xlstat root (store_path ty name) = XLNode (XDir es) ->
+  (forall e, In e es -> ~ is_other (snd e)) ->
+  Forall (xentry_good (is_tsa ty)) es.
+Proof. exact xget_regular_v0. Qed.
+Print Assumptions C13_regular_within_alphabet_v0.
+
+(* without it the clause was refuted: a store loaded although an entry of it was
+   not a regular file; the present code fails on the same store, naming the entry *)
+Theorem C13_regular_only_v0_refuted :
+  exists root ty name l es,
+    xget_certificates_v0 root ty name = Loaded l /\ l <> [] /\
+    xlstat root (store_path ty name) = XLNode (XDir es) /\
+    ~ Forall (fun e => exists c, snd e = XFile c) es /\
+    xget_certificates root ty name = Failed ECertificate KEntryKind "pipe".
+Proof. exact regular_only_v0_refuted. Qed.
+Print Assumptions C13_regular_only_v0_refuted.
 
 (* ---------- non-vacuity ---------- *)
-(* hypotheses of (3): a store of regular files beside a FIFO elsewhere in the tree *)
-Example C13_special_example_within :
+Example C13_x_example :
   let t := XDir [("truststore", XDir [("x509", XDir [("ca", XDir [
              ("s", XDir [("a.pem", XFile (CCerts [xex_cert]))]);
-             ("p", XDir [("pipe", XOther (CCerts [xex_cert])); ("z.pem", XFile (CCerts [xex_cert]))]);
+             ("p", XDir [("a.pem", XFile (CCerts [xex_cert])); ("pipe", XOther (CCerts [xex_cert])); ("z.pem", XFile CErr)]);
              ("q", XDir [("a.pem", XFile (CCerts [xex_cert])); ("sock", XOther CErr)])])])])] in
-  xget_certificates t "ca" "s" = Loaded [xex_cert] /\
-  xlstat t (store_path "ca" "s") = XLNode (XDir [("a.pem", XFile (CCerts [xex_cert]))]) /\
-  (forall e, In e [("a.pem", XFile (CCerts [xex_cert]))] -> ~ is_other (snd e)) /\
-  (* the FIFO's certificate is returned with the regular file's; a socket (open fails) fails the store *)
-  xget_certificates t "ca" "p" = Loaded [xex_cert; xex_cert] /\
-  xget_certificates t "ca" "q" = Failed ECertificate KRead "sock".
+  let t' := XDir [("truststore", XDir [("x509", XDir [("ca", XDir [
+             ("p", XDir [("a.pem", XFile (CCerts [xex_cert])); ("pipe", XOther CErr); ("z.pem", XFile CErr)])])])])] in
+  (* a loadable store beside stores with a FIFO / a socket *)
+  xloadable t "ca" "s" [xex_cert] /\ xget_certificates t "ca" "s" = Loaded [xex_cert] /\
+  store_has_other t "ca" "s" = false /\ store_has_other t "ca" "p" = true /\
+  (* hypotheses of C13_x_first_offender: the FIFO after a good file, before an unparsable one *)
+  known_type "ca" /\ plain_name "p" /\
+  xlstat t (store_path "ca" "p") =
+    XLNode (XDir ([("a.pem", XFile (CCerts [xex_cert]))] ++ ("pipe", XOther (CCerts [xex_cert])) :: [("z.pem", XFile CErr)])) /\
+  Forall (xentry_good (is_tsa "ca")) [("a.pem", XFile (CCerts [xex_cert]))] /\
+  ~ xentry_good (is_tsa "ca") ("pipe", XOther (CCerts [xex_cert])) /\
+  xget_certificates t "ca" "p" = Failed ECertificate KEntryKind "pipe" /\
+  xget_certificates t "ca" "q" = Failed ECertificate KEntryKind "sock" /\
+  (* hypotheses of C13_x_other_content_irrelevant: same store, the FIFO would deliver something else *)
+  (exists es1 es2, xlstat t (store_path "ca" "p") = XLNode (XDir es1) /\
+                   xlstat t' (store_path "ca" "p") = XLNode (XDir es2) /\
+                   es1 <> es2 /\ strict_entries es1 = strict_entries es2) /\
+  (* the old code read the FIFO: it got past it and failed on z.pem only; on q it reported a read error *)
+  xget_certificates_v0 t "ca" "p" = Failed ECertificate KRead "z.pem" /\
+  xget_certificates_v0 t "ca" "q" = Failed ECertificate KRead "sock".
 Proof.
-  cbn zeta. split; [reflexivity|]. split; [reflexivity|]. split; [|split; reflexivity].
-  intros e [<-|[]] (c & E). discriminate.
+  cbn zeta. split.
+  { apply C13_x_iff. reflexivity. }
+  split; [reflexivity|]. split; [reflexivity|]. split; [reflexivity|].
+  split; [cbn; auto|]. split; [apply is_valid_file_name_spec; reflexivity|]. split; [reflexivity|].
+  split.
+  { constructor; [|constructor]. exists [xex_cert]. split; [reflexivity|]. split; [discriminate|].
+    constructor; [|constructor]. split; [left; reflexivity | discriminate]. }
+  split; [intros (cs & E & _); discriminate|].
+  split; [reflexivity|]. split; [reflexivity|]. split.
+  { eexists. eexists. split; [reflexivity|]. split; [reflexivity|]. split; [discriminate | reflexivity]. }
+  split; reflexivity.
 Qed.
